@@ -1,5 +1,6 @@
 (* C10 - Repetition counts are exact and a third occurrence is scored as a draw. *)
-From Walleye Require Import Model.Search Proofs.DrawTableProofs Proofs.SearchBasics Proofs.TableRestored Proofs.RootDraw.
+From Walleye Require Import Model.Uci.
+From Walleye Require Import Model.Search Proofs.DrawTableProofs Proofs.SearchBasics Proofs.TableRestored Proofs.RootDraw Proofs.PositionCounts.
 Open Scope Z_scope.
 
 (* after `position ... moves ...` the record holds, for every key, the number of positions of the
@@ -12,6 +13,30 @@ Proof.
   rewrite (play_moves_counts zt mvs _ _ _ _ _ HP HV k).
   unfold occurrences, dt_count. cbn [filter dt_get].
   destruct (zobrist_key b =? k)%N; cbn [length]; lia.
+Qed.
+
+(* the same for the whole `position` command (word positions, FEN reassembly or startpos, `moves` keyword): the
+   record it returns counts exactly the positions of the described game, start position included, and - being the
+   result of a function of the command alone - holds nothing from earlier position commands *)
+Theorem C10_position_command_counts : forall zt cmds b' t',
+  play_out_position zt cmds = Ok (b', t') ->
+  exists b0 l,
+    command_start zt cmds = Ok b0 /\
+    visited zt b0 (match after_moves cmds with Some mvs => mvs | None => [] end) = Ok l /\
+    last (b0 :: l) b0 = b' /\
+    forall k, dt_count t' k = occurrences k (b0 :: l).
+Proof. exact position_command_counts. Qed.
+
+(* a go does not touch the record: the search works on its own copy (and restores even that, C07), so a second go
+   without a new position still sees every repetition of the game *)
+Theorem C10_go_keeps_the_record : forall zt osort st cmds sc,
+  ss_table (fst (go_step zt osort st cmds sc)) = ss_table st.
+Proof.
+  intros zt osort st cmds sc. unfold go_step. destruct (parse_go_command cmds); try reflexivity.
+  destruct (generate_moves zt (ss_board st) AllMoves); try reflexivity.
+  destruct (get_best_move zt osort (sc_k sc) (sc_fuel sc) (ss_board st) (ss_table st)) as [[ev s]| |]; try reflexivity.
+  destruct (nth_error (sends_of ev) (Nat.min (sc_pick sc) (length (sends_of ev) - 1))) as [bb|]; try reflexivity.
+  destruct (best_move_text bb); reflexivity.
 Qed.
 
 (* the draw test is "seen at least twice", whatever larger count has accumulated *)
@@ -45,6 +70,8 @@ Check C10_counts_exact : forall zt b mvs s' t' l,
 Check C10_threefold_iff : forall t s, is_threefold_repetition t s = true <-> 2 <= dt_count t (zobrist_key s).
 
 Print Assumptions C10_counts_exact.
+Print Assumptions C10_position_command_counts.
+Print Assumptions C10_go_keeps_the_record.
 Print Assumptions C10_threefold_iff.
 Print Assumptions C10_draw_value.
 Print Assumptions C10_final_score_not_below_zero.
